@@ -20,6 +20,7 @@ META = {
 }
 
 CONTENTS = {
+    "rest": ["W"],
     "n1": [("ON", 0), "W", ("OFF", 0), "W"],
     "n2": [("TS", 3, 4), ("ON", 0), "W", ("ON", 1), "W", ("OFF", 0), "W", ("OFF", 1)],
     "n2t": ["W", ("ON", 0), "W", ("OFF", 0), ("ON", 1), "W", ("OFF", 1), "W"],
@@ -406,8 +407,10 @@ REQUIRED = ["readable", "views_agree", "freshness_independent", "derived_readabl
 def queries(tier, seed):
     qs = []
     wmax = 10 if tier == "quick" else 16
-    for c in ("n1", "n2", "n2t"):
+    for c in ("rest", "n1", "n2", "n2t"):
         qs.append(q_conversion(c, wmax))
+    for st in ("pad", "read_abs", "readers", "copy", "add_abs", "normalise", "set_channel", "split", "concatenate", "merge"):
+        qs.append(q_step(st, "rest", 10))
     for st in STEPS:
         heavy = st in ("quantise", "qnl", "quantise_and_normalise", "merge", "cutoff", "transpose_wrap", "scale_half_self_meta", "scale_half")
         # position-sensitive steps (j-th yielded message, insertion index) are only meaningful on the list the caller sees,
